@@ -110,6 +110,28 @@ impl<'a> DeferredReader<'a> {
         }
     }
 
+    /// A reader whose whole (concrete or symbolic) content is already buffered: no nondeterminism.
+    pub fn model_buffered(data: [u8; N], len: usize) -> Self {
+        DeferredReader {
+            m_data: data,
+            m_len: len,
+            m_pos: 0,
+            m_avail: len,
+            m_complete: false,
+            m_fault: false,
+            m_err_parked: false,
+            m_err_obj: io::Error::from(io::ErrorKind::Other),
+            m_mark: 0,
+            m_base: 0,
+            m_refill: Refill::All,
+            m_hw: 0,
+            m_eof_probed: false,
+            m_chunk: Self::DEFAULT_CHUNK_SIZE,
+            m_refills: 0,
+            _p: PhantomData,
+        }
+    }
+
     pub fn snapshot(&self) -> ModelState {
         ModelState {
             data: self.m_data,
